@@ -232,6 +232,46 @@ _START_NAME_RE = re.compile(r"^start-group-(\d+)$")
 _FALSY = (0, None, "", (), False)
 
 
+class _OneShot:
+    """A one-shot iterator element for starmap (can be unpacked exactly once)."""
+
+    def __init__(self, items):
+        self.items = tuple(items)
+        self._it = iter(self.items)
+
+    def __iter__(self):
+        return self._it
+
+    def __len__(self):
+        return len(self.items)
+
+
+class _AsyncCallable:
+    """Its instances (not the class itself) are awaitable-returning callables; neither is a coroutine function."""
+    __name__ = "async_callable"
+
+    async def __call__(self, *a, **k):
+        return None
+
+
+def _not_coroutine_function(k):
+    """Callables that are NOT coroutine functions (C09)."""
+    k = k % 5
+    if k == 0:
+        f = (lambda *a, **k: None)
+        f.__name__ = "not_a_coroutine_function"
+        return f
+    if k == 1:
+        return _AsyncCallable            # a class whose __call__ is async: calling it makes an instance, not a coroutine
+    if k == 2:
+        return _AsyncCallable()          # an instance with async __call__
+    if k == 3:
+        def gen_function(*a, **k):
+            yield 1
+        return gen_function
+    return len
+
+
 class Payload:
     """Opaque argument object compared by identity."""
     __slots__ = ("tag",)
@@ -249,6 +289,9 @@ class Sim:
 
     def __init__(self, run, props=None):
         silence_library_logging()
+        if run["config"].get("loglevel") == "DEBUG":
+            # configuration knob: the library's logger enabled at DEBUG (records go to a null handler)
+            logging.getLogger("asyncio_taskpool").setLevel(logging.DEBUG)
         self.run = run
         self.cfg = run["config"]
         self.clean = run.get("clean", True)
@@ -332,7 +375,7 @@ class Sim:
         with running(self.loop):
             for i, pcfg in enumerate(self.cfg["pools"]):
                 self._make_pool(i, pcfg)
-        names = [pc.pool_str for pc in self.pools]
+        names = [pc.pool_str for pc in self.pools if pc.cfg.get("name") is None]   # unnamed pools get distinct names
         if len(set(names)) != len(names):
             self.violate("C11", "pool_names_distinct", f"pool names collide: {names}")
         for pc in self.pools:
@@ -378,7 +421,7 @@ class Sim:
         self._make_pool(i, pcfg)
         pc = self.pools[i]
         live = [p.pool_str for p in self.pools[:i] if not p.closed]
-        if pc.pool_str in live:
+        if pc.pool_str in live and pcfg.get("name") is None:
             self.violate("C11", "pool_names_distinct", f"new pool is named {pc.pool_str!r} like a pool that is still open")
         exp_cls = "SimpleTaskPool" if pc.cls == "S" else "TaskPool"
         if pcfg.get("name") is not None and pc.pool_str != f"{exp_cls}-{pcfg['name']}":
@@ -496,7 +539,8 @@ class Sim:
         if req.kind == "map":
             ok = len(args) == 1 and args[0] is x and not kwargs
         elif req.kind == "starmap":
-            ok = (not kwargs) and len(args) == len(x) and all(a is b for a, b in zip(args, x))
+            xs = x.items if isinstance(x, _OneShot) else x
+            ok = (not kwargs) and len(args) == len(xs) and all(a is b for a, b in zip(args, xs))
         else:
             ok = (not args) and set(kwargs) == set(x) and all(kwargs[k] is x[k] for k in x)
         if not ok:
@@ -575,6 +619,27 @@ class Sim:
             sim.stats["fault:callback_raises"] += 1
             return e
 
+        if kind == "sT":
+            # plain callback that would also accept zero arguments and whose body raises TypeError
+            def cbt(*args):
+                if sim.torn:
+                    return
+                if len(args) != 1:
+                    sim.violate("C03", "callback_arguments", f"{which} callback called with arguments {args!r} (expected exactly the task id)")
+                    return
+                trec = sim._cb_enter(owner, which, args[0])
+                try:
+                    sim._op_point(which, trec)
+                    if not trec.inv_probe():
+                        e = TypeError(f"{which} {trec.name}: unsupported operand (injected)")
+                        sim.injected.append(e)
+                        sim.inj_by_pool[trec.pc.idx] += 1
+                        sim.stats["fault:callback_raises_typeerror"] += 1
+                        raise e
+                finally:
+                    if not sim.torn:
+                        sim._cb_exit(trec, which)
+            return cbt
         if base == "s":
             def cb(task_id):
                 if sim.torn:
@@ -961,9 +1026,13 @@ class Sim:
                 got = p.get_group_ids(name)
             except Exception as e:
                 self.violate("C10", "group_missing", f"get_group_ids({name!r}) raised {type(e).__name__}")
+                if r.elems is None:
+                    self.violate("C04", "group_membership", f"{r.kind} r{r.label}: returned group {name!r} is unknown to the pool")
                 continue
             if set(got) != exp:
                 self.violate("C10", "group_ids", f"get_group_ids({name!r})={sorted(got)}, request created {sorted(exp)}")
+                if r.elems is None:
+                    self.violate("C04", "group_membership", f"{r.kind} r{r.label}: returned group {name!r} holds {sorted(got)}, its invocations run as {sorted(exp)}")
             for i in got:
                 if i in seen and seen[i] != name:
                     self.violate("C10", "group_overlap", f"id {i} in groups {seen[i]!r} and {name!r}")
@@ -1069,14 +1138,14 @@ class Sim:
                     if kind == "map":
                         elems.append(_FALSY[i % len(_FALSY)] if b == 2 else Payload(("el", label, i)))
                     elif kind == "starmap":
-                        elems.append(7 if b == 1 else (() if b == 2 else (Payload(("el", label, i, 0)), Payload(("el", label, i, 1)))))
+                        tup = (Payload(("el", label, i, 0)), Payload(("el", label, i, 1)))
+                        elems.append(7 if b == 1 else (() if b == 2 else (_OneShot(tup) if b == 3 else tup)))
                     else:
                         elems.append(7 if b == 1 else ({} if b == 2 else {"kw_a": Payload(("el", label, i, "a"))}))
                 req.elems = elems
         func = req.func
         if bad == "notcoro":
-            func = (lambda *a, **k: None)
-            func.__name__ = "not_a_coroutine_function"
+            func = _not_coroutine_function(step.get("nck", 0))
             causes.append(X.NotCoroutineFunction)
         if pc.closed:
             causes.append(X.PoolIsClosed)
@@ -1285,7 +1354,7 @@ class Sim:
             name = r.gname
         req = pc.live_names.get(name)
         if req is not None:
-            if ctx is not None and ctx[0] in ("it", "fa") and ctx[1] is req:
+            if ctx is not None and ctx[0] in ("it", "fa") and ctx[1] is req and not self.run.get("own_iter_cancel"):
                 return False
             targets = self._group_targets(req)
             if "F-EARLY" in self.steer and any(t.state == "U" for t in targets):
@@ -1330,7 +1399,7 @@ class Sim:
         pc = self._pc(step)
         if pc is None:
             return False
-        if ctx is not None and ctx[0] in ("it", "fa"):
+        if ctx is not None and ctx[0] in ("it", "fa") and not self.run.get("own_iter_cancel"):
             return False
         targets = [t for r in pc.live_names.values() for t in self._group_targets(r)]
         if "F-EARLY" in self.steer and any(t.state == "U" for t in targets):
@@ -1813,6 +1882,16 @@ class Sim:
                     self.violate("C03", "ccb_count", f"cancel callback ran {t.ccb_calls}x for {t.name} (coroutine ended by {t.exit_how})")
                 if t.pend_cancel > 0 and t.exit_how != "cancel" and t.cancel_obs == 0 and not t.early:
                     self.violate(t.pend_prop or "C06", "cancel_lost", f"{t.name} was cancelled but never observed it")
+            if not pc.size_changed and not pc.n_run and not pc.n_C and not pc.cb_open and not any(t.early for t in pc.tasks) \
+                    and not any(r.work_left() for r in pc.reqs if r.accepted_seq is not None):
+                import math
+                exp = math.inf if pc.size is None else pc.size
+                try:
+                    got = pc.pool.pool_size
+                except Exception as e:
+                    got = e
+                if got != exp:
+                    self.violate("C15", "getter_idle_after_history", f"end of run: pool_size={got} on the idle pool {pc.pool_str}, configured maximum {exp}")
             if pc.n_run:
                 self.violate("C02", "running_at_end", f"end of run: {pc.n_run} tasks still counted as running")
             for r in pc.reqs:
